@@ -33,3 +33,7 @@ impl SignalingMessage {
         })
     }
 }
+
+#[cfg(feature = "pendulum_project_ntpd_rs_verif")]
+#[path = "/verif/hooks/statime-wire/messages_signalling.rs"]
+pub mod vh_messages_signalling;
